@@ -17,6 +17,10 @@ import (
 //	jobJournalRe      the pattern text of `jobJournalRe` in martian/core/node.go
 //	metadataFileNames the MetadataFileName constants of martian/core/metadata.go
 //	journalPrefixes   SplitPrefix / JoinPrefix
+//	forkIdReenters    whether the recursive call that ForkId.forkId makes after
+//	                  flushing an array index in front of a map part starts at
+//	                  the map part (`start+i`, true) or after it
+//	                  (`start+i+1`, false)
 
 // findVarInit returns the initialiser of a package-level `var name = ...`.
 func findVarInit(f *ast.File, name string) ast.Expr {
@@ -193,6 +197,83 @@ func init() {
 			}
 			xs := []string{got["SplitPrefix"], got["JoinPrefix"]}
 			return leanBytesList(xs), xs, nil
+		},
+	})
+	addFact(fact{
+		name:   "forkIdReenters",
+		leanTy: "Bool",
+		deflt:  "true",
+		extract: func(repo string) (string, interface{}, error) {
+			_, f, err := parseFile(repo, "martian/core/fork.go")
+			if err != nil {
+				return "", nil, err
+			}
+			fd := findMethod(f, "ForkId", "forkId")
+			if fd == nil {
+				return "", nil, fmt.Errorf("ForkId.forkId not found")
+			}
+			// the `case syntax.ModeMapCall:` clause of the switch on part.Id.Mode():
+			// its last statement is `return f.forkId(buf, <start expr>)`.
+			var result *bool
+			var bad error
+			ast.Inspect(fd.Body, func(n ast.Node) bool {
+				cc, ok := n.(*ast.CaseClause)
+				if !ok || len(cc.List) != 1 || !selectorIs(cc.List[0], "syntax", "ModeMapCall") || len(cc.Body) == 0 {
+					return true
+				}
+				ret, ok := cc.Body[len(cc.Body)-1].(*ast.ReturnStmt)
+				if !ok || len(ret.Results) != 1 {
+					bad = fmt.Errorf("ModeMapCall clause does not end in `return f.forkId(...)`")
+					return false
+				}
+				call, ok := ret.Results[0].(*ast.CallExpr)
+				if !ok || len(call.Args) != 2 {
+					bad = fmt.Errorf("ModeMapCall clause does not end in `return f.forkId(...)`")
+					return false
+				}
+				if se, ok := call.Fun.(*ast.SelectorExpr); !ok || se.Sel.Name != "forkId" {
+					bad = fmt.Errorf("ModeMapCall clause does not end in `return f.forkId(...)`")
+					return false
+				}
+				var sb strings.Builder
+				var flat func(e ast.Expr)
+				flat = func(e ast.Expr) {
+					switch e := e.(type) {
+					case *ast.BinaryExpr:
+						flat(e.X)
+						sb.WriteString(e.Op.String())
+						flat(e.Y)
+					case *ast.Ident:
+						sb.WriteString(e.Name)
+					case *ast.BasicLit:
+						sb.WriteString(e.Value)
+					case *ast.ParenExpr:
+						flat(e.X)
+					default:
+						sb.WriteString("?")
+					}
+				}
+				flat(call.Args[1])
+				var v bool
+				switch sb.String() {
+				case "start+i+1":
+					v = false
+				case "start+i":
+					v = true
+				default:
+					bad = fmt.Errorf("unrecognised recursion start %q", sb.String())
+					return false
+				}
+				result = &v
+				return false
+			})
+			if bad != nil {
+				return "", nil, bad
+			}
+			if result == nil {
+				return "", nil, fmt.Errorf("ModeMapCall clause not found in ForkId.forkId")
+			}
+			return fmt.Sprint(*result), *result, nil
 		},
 	})
 }
